@@ -206,6 +206,13 @@ def run(ctx):
             p = max(j for j, s0 in enumerate(starts) if s0 <= off)
             gov = [(j, n) for j, n in mk if j <= p]
             if not gov:
+                # before every marker a token stands on its physical line, whatever markers (and diagnostics) come later in the text
+                if pos[0] != p:
+                    if nviol < 3:
+                        ctx.report("marker-before:" + t[:50], "text %r: token %s on physical line %d precedes every line marker but is reported on line %d"
+                                   % (t[:200], kd, p, pos[0]), {"component": "positions", "law": "marker-before", "text": t})
+                    nviol += 1
+                    break
                 continue
             j, n = gov[-1]
             if pos[0] != n + (p - j - 1):
